@@ -10,6 +10,7 @@ package client
 
 import (
 	"bytes"
+	"encoding/hex"
 
 	"github.com/tokenized/pkg/bitcoin"
 	"github.com/tokenized/pkg/merchant_api"
@@ -65,7 +66,32 @@ func c20mPayloads() []MessagePayload {
 		&Accept{MessageType: MessageTypeSendTx, Hash: &h1},
 		&Reject{MessageType: MessageTypeSendTx, Hash: &h1, Code: 2, Message: "no"},
 		&ChainTip{Height: 7, Hash: h2},
+		c20mRegister(),
+		c20mAcceptRegister(),
 	}
+}
+
+// a real secp256k1 public key (the generator) and a small well-formed signature
+func c20mKey() bitcoin.PublicKey {
+	b, _ := hex.DecodeString("0279be667ef9dcbbac55a06295ce870b07029bfcdb2dce28d959f2815b16f81798")
+	var k bitcoin.PublicKey
+	verifrt.Assume(k.SetBytes(b) == nil)
+	return k
+}
+
+func c20mSignature() bitcoin.Signature {
+	var s bitcoin.Signature
+	s.R.SetBytes([]byte{0x11, 0x22})
+	s.S.SetBytes([]byte{0x33})
+	return s
+}
+
+func c20mRegister() MessagePayload {
+	return &Register{Version: 1, Key: c20mKey(), Hash: c20mHash(3), StartBlockHeight: 5, ChainTip: c20mHash(4), Signature: c20mSignature()}
+}
+
+func c20mAcceptRegister() MessagePayload {
+	return &AcceptRegister{Key: c20mKey(), PushDataCount: 1, UTXOCount: 2, MessageCount: 3, Signature: c20mSignature()}
 }
 
 func VerifHarness_C20_mutated() {
@@ -83,6 +109,12 @@ func VerifHarness_C20_mutated() {
 	}
 	off := verifrt.Choose("offset", len(img)-w+1)
 	copy(img[off:], verifrt.Bytes("win", w))
+	// second shape: the image ends after the window (a length field that promises more than there
+	// is, an element cut short)
+	if verifrt.Choose("cut-after-window", 2) == 1 {
+		img = img[:off+w]
+		verifrt.Reach("C20.mutated.cut")
+	}
 	verifrt.AllocObligation("C20.alloc.proportional-to-input", 1<<20, 64, len(img))
 	fresh := PayloadForType(p.Type())
 	var err error
